@@ -1,7 +1,57 @@
-(* C02 — property theorems only. *)
+(* C02 — property theorems only.  Each is closed by `exact <lemma>` and followed by Print Assumptions.
+
+   Reading guide (definitions in Spec.v / Model.v):
+   - [seq_run late seq0 h = Some (q, ms)]: the model of EventSequencer, started empty, run over the history
+     [h] of callbacks and flush points (each flush with an ARBITRARY intra-phase order), emits [ms];
+     [late = false] is the phase order of the code as it stands, [late = true] the order after
+     fixes/C02-vtep-remove-after-route-update.patch;
+   - [contract_gen late world0 world0 h]: the upstream contract (cb_ok for each callback, upstream world
+     reference-closed at each flush; for [late = false] additionally [no_retarget]);
+   - [closed w]: every reference of every object in dataplane world [w] exists in [w];
+   - [msg_ok w m]: delta updates name an existing set, add only absent / remove only present members;
+     removals name existing objects; full updates list no member twice. *)
 From stdpp Require Import gmap.
 From Verif.C02 Require Import Model Spec Proofs.
 
-Theorem c02_placeholder : forall t, sel t [] = [].
-Proof. exact sel_nil. Qed.
-Print Assumptions c02_placeholder.
+(* After EVERY single emitted message the dataplane is reference-closed. *)
+Theorem c02_refs_present : forall late h q ms a m b,
+  contract_gen late world0 world0 h -> seq_run late seq0 h = Some (q, ms) -> ms = a ++ m :: b ->
+  closed (apply_msgs world0 (a ++ [m])).
+Proof. exact refs_present. Qed.
+Print Assumptions c02_refs_present.
+
+(* Every message is well-formed in the dataplane state it arrives in. *)
+Theorem c02_delta_wellformed : forall late h q ms a m b,
+  contract_gen late world0 world0 h -> seq_run late seq0 h = Some (q, ms) -> ms = a ++ m :: b ->
+  msg_ok (apply_msgs world0 a) m.
+Proof. exact msgs_wellformed. Qed.
+Print Assumptions c02_delta_wellformed.
+
+(* With the repaired phase order the plain contract (no extra restriction) is enough. *)
+Theorem c02_refs_present_fixed_order : forall h q ms,
+  contract world0 h -> seq_run true seq0 h = Some (q, ms) -> stream_ok world0 ms.
+Proof. intros h q ms Hc. exact (run_ok true h q ms (contract_gen_true _ _ _ Hc)). Qed.
+Print Assumptions c02_refs_present_fixed_order.
+
+(* Inside the contract no Go panic is reached. *)
+Theorem c02_no_panic : forall late h, contract_gen late world0 world0 h -> is_Some (seq_run late seq0 h).
+Proof. exact no_panic. Qed.
+Print Assumptions c02_no_panic.
+
+(* After a flush the dataplane equals the net upstream state (used by C01). *)
+Theorem c02_net_effect : forall late h o q ms,
+  contract_gen late world0 world0 (h ++ [SFlush o]) -> seq_run late seq0 (h ++ [SFlush o]) = Some (q, ms) ->
+  apply_msgs world0 ms = upstream world0 h.
+Proof. exact net_effect. Qed.
+Print Assumptions c02_net_effect.
+
+(* The full statement is FALSE of the faithful model with the order of the code as it stands: a history
+   inside the plain contract whose stream is rejected (a VTEP is removed while a route still needs it). *)
+Theorem c02_vtep_retarget_refuted : contract world0 retarget_history /\ refuted_check = true.
+Proof. exact retarget_refuted. Qed.
+Print Assumptions c02_vtep_retarget_refuted.
+
+(* hypotheses are satisfiable by a non-trivial history: the refutation witness itself satisfies the contract
+   of the repaired order *)
+Example c02_contract_inhabited : contract_gen true world0 world0 retarget_history.
+Proof. exact (contract_gen_true _ _ _ (proj1 retarget_refuted)). Qed.
